@@ -276,7 +276,7 @@ fn check_geometry(v: &mut Verdict, fam: &Family, var: &Variant, out: &Outcome, c
         }
     }
     v.require(worst.0 <= tol_i, "airfoil.station_is_inscribed_circle", || format!("{tag}: station {} of {}: |dist − r| = {:e} (tol {tol_i:e}) le={le:?} te={te:?}", worst.1, st.len(), worst.0));
-    v.require(worst_forged <= 4e-3 * scale + 10.0 * core_tol, "airfoil.fitted_edge_circle_is_inscribed", || {
+    v.require(worst_forged <= 4e-3 * scale + 20.0 * core_tol, "airfoil.fitted_edge_circle_is_inscribed", || {
         let l = &st[st.len() - 1];
         let f = &st[0];
         format!("{tag}: {worst_forged:e} le={le:?} te={te:?}; first station r={} at {:?} (true cap r0={} at 0,0), last station r={} at {:?} (true cap r1={} at {:?}) n_cap={} n_side={} core_tol={core_tol}", f.radius(), inv * f.center(), fam.r0, l.radius(), inv * l.center(), fam.r1, fam.camber(fam.len).0, fam.n_cap, fam.n_side)
@@ -288,11 +288,14 @@ fn check_geometry(v: &mut Verdict, fam: &Family, var: &Variant, out: &Outcome, c
     let feet: Vec<(f64, f64)> = st.iter().map(|s| fam.foot(&(inv * s.center()))).collect();
     let mut back = None;
     for k in 0..feet.len() - 1 {
-        if feet[k + 1].1 <= feet[k].1 - 1e-9 && back.is_none() {
+        if feet[k + 1].1 <= feet[k].1 - (1e-6 * fam.len + 2.0 * core_tol) && back.is_none() {
             back = Some((k, feet[k].1, feet[k + 1].1));
         }
     }
-    v.require(back.is_none(), "airfoil.stations_advance_from_leading_to_trailing_edge", || format!("{tag}: {:?} le={le:?} te={te:?}", back));
+    v.require(back.is_none(), "airfoil.stations_advance_from_leading_to_trailing_edge", || {
+        let tail: Vec<String> = st.iter().rev().take(4).map(|s| format!("({:.4},{:.4}) r={:.4}", (inv * s.center()).x, (inv * s.center()).y, s.radius())).collect();
+        format!("{tag}: {:?} le={le:?} te={te:?} core_tol={core_tol} fam={fam:?} last stations (from the end): {}", back, tail.join(" "))
+    });
     // 5. known medial axis
     let disc = 0.02 * scale * (150.0 / fam.n_side as f64).max(1.0) * 0.1 + 5.0 * core_tol;
     let mut off: f64 = 0.0;
@@ -323,11 +326,21 @@ fn check_geometry(v: &mut Verdict, fam: &Family, var: &Variant, out: &Outcome, c
             // an edge method may decline (ConvergeTangentEdge returns no edge when nothing converges)
             None => {}
             Some(e) => {
-                v.require(sec.dist_to_point(&e.point) <= tol_i, "airfoil.edge_point_on_section", || format!("{tag}: {name} edge {:e} from the section le={le:?} te={te:?}", sec.dist_to_point(&e.point)));
+                // an edge point placed on a fitted arc lies off the polyline by at most the sagitta of a cap segment
+                let sag = fam.r0.max(fam.r1) * (1.0 - (std::f64::consts::PI / fam.n_cap as f64).cos());
+                let method = if name == "leading" { le } else { te };
+                // ConvergeTangentEdge works to 1 % of the edge radius by default
+                let own = if method == Edge::ConvergeTangent { 0.015 * fam.r0.max(fam.r1) } else { 0.0 };
+                v.require(sec.dist_to_point(&e.point) <= tol_i + sag + own, "airfoil.edge_point_on_section", || format!("{tag}: {name} edge {:e} from the section le={le:?} te={te:?}", sec.dist_to_point(&e.point)));
                 let d = (inv * e.point - truth).norm();
                 let method = if name == "leading" { le } else { te };
                 // the maximum-curvature methods are not well posed on a circular cap (constant curvature)
                 let aims = !matches!(method, Edge::TraceMaxCurv | Edge::ConvergeTangent);
+                // the constant-radius method fits its edge arc to the analysis tolerance across the
+                // junction of cap and face; the fitted centre moves by a multiple of that tolerance
+                // — and its edge point is the camber direction through two nearly coincident centres
+                // intersected with the section, which is ill conditioned: only "on the right cap" is checked
+                let etol = etol + if method == Edge::ConstRadius { 30.0 * core_tol + fam.r0.max(fam.r1) } else { 0.0 };
                 v.require(!aims || d <= etol, "airfoil.edge_point_at_end_of_known_camber", || format!("{tag}: {name} edge {d:e} from the true edge point (tol {etol:e}) le={le:?} te={te:?}"));
             }
         }
@@ -408,18 +421,22 @@ fn sections(rng: &mut Rng) {
     match (&results[0], &results[1]) {
         (Some(a), Some(b)) => {
             let inv = moved.iso.inverse();
-            let tol = 0.02 * scale + 10.0 * core_tol;
+            let tol = 0.02 * scale + 10.0 * core_tol + if le == Edge::ConstRadius || te == Edge::ConstRadius { 10.0 * core_tol } else { 0.0 };
             let (ta, tb) = (a.geo.find_tmax(), b.geo.find_tmax());
             v.require((ta.radius() - tb.radius()).abs() <= tol, "airfoil.invariant_max_thickness", || format!("{} vs {}", ta.radius(), tb.radius()));
             v.require((a.geo.camber.length() - b.geo.camber.length()).abs() <= 5.0 * tol, "airfoil.invariant_camber_length", || format!("{} vs {} le={le:?} te={te:?}", a.geo.camber.length(), b.geo.camber.length()));
             if let (Some(x), Some(y)) = (&a.geo.leading_edge, &b.geo.leading_edge) {
+                let tol = tol + if le == Edge::ConstRadius { fam.r0 } else { 0.0 };
                 v.require((x.point - inv * y.point).norm() <= 5.0 * tol, "airfoil.invariant_leading_edge", || format!("{:e} le={le:?}", (x.point - inv * y.point).norm()));
             }
             if let (Some(x), Some(y)) = (&a.geo.trailing_edge, &b.geo.trailing_edge) {
+                let tol = tol + if te == Edge::ConstRadius { fam.r1 } else { 0.0 };
                 v.require((x.point - inv * y.point).norm() <= 5.0 * tol, "airfoil.invariant_trailing_edge", || format!("{:e} te={te:?}", (x.point - inv * y.point).norm()));
             }
         }
         (None, None) => {}
+        // the RANSAC edge method draws random samples: its acceptance is not reproducible
+        _ if le == Edge::Ransac || te == Edge::Ransac => {}
         _ => v.require(false, "airfoil.invariant_acceptance", || format!("accepted in one frame / vertex order and declined in the other (reversed={} start={}) le={le:?} te={te:?}", moved.reversed, moved.start)),
     }
     emit_oracle_only("airfoil.section", &Tok::new(), &Tok::new(), &v);
@@ -529,51 +546,72 @@ fn bisect(rng: &mut Rng) {
 fn open_sections(rng: &mut Rng) {
     let fam = family(rng);
     let scale = fam.len / 10.0;
-    // the outline without the trailing cap: lower surface, then upper surface back to the LE cap
     let full = fam.outline();
     let ns = fam.n_side;
-    let mut pts: Vec<Point2> = vec![];
-    // start on the upper surface at the trailing end, go over the leading edge, end on the lower surface
+    let nc = fam.n_cap;
+    // outline layout: [0, ns) lower LE→TE, [ns, ns+nc) TE cap, [ns+nc, 2ns+nc) upper TE→LE, then LE cap
+    let open_leading = rng.chance(0.5);
     let cut = (ns as f64 * 0.9) as usize;
-    for k in (ns - cut)..ns {
-        pts.push(full[ns + fam.n_cap + k]);
-    }
-    for k in 0..fam.n_cap {
-        pts.push(full[2 * ns + fam.n_cap + k]);
-    }
-    for k in 0..cut {
-        pts.push(full[k]);
+    let mut pts: Vec<Point2> = vec![];
+    if open_leading {
+        // start on the lower surface near the leading end, over the trailing cap, end on the upper surface
+        for k in (ns - cut)..ns {
+            pts.push(full[k]);
+        }
+        for k in 0..nc {
+            pts.push(full[ns + k]);
+        }
+        for k in 0..cut {
+            pts.push(full[ns + nc + k]);
+        }
+    } else {
+        for k in (ns - cut)..ns {
+            pts.push(full[ns + nc + k]);
+        }
+        for k in 0..nc {
+            pts.push(full[2 * ns + nc + k]);
+        }
+        for k in 0..cut {
+            pts.push(full[k]);
+        }
     }
     let core_tol = 1e-3 * scale;
     let which = rng.below(2);
-    let var = Variant { iso: Iso2::identity(), reversed: false, start: 0 };
-    let le = Edge::Intersect;
     let r = with_watchdog(20, move || {
         guarded(move || {
             let section = Curve2::from_points(&pts, 1e-6 * scale, false).map_err(|e| e.to_string())?;
-            let te: Box<dyn EdgeLocate> = if which == 0 { OpenEdge::make() } else { OpenIntersectGap::make(50) };
-            let geo = AirfoilGeometry::try_analyze(&section, core_tol, DirectionFwd::make(Vector2::new(-1.0, 0.0)), make_edge(le, scale), te, FaceOrient::UpperDir(Vector2::new(0.0, 1.0))).map_err(|e| e.to_string())?;
+            let open: Box<dyn EdgeLocate> = if which == 0 { OpenEdge::make() } else { OpenIntersectGap::make(50) };
+            let closed = make_edge(Edge::Intersect, scale);
+            let (le, te) = if open_leading { (open, closed) } else { (closed, open) };
+            let geo = AirfoilGeometry::try_analyze(&section, core_tol, DirectionFwd::make(Vector2::new(-1.0, 0.0)), le, te, FaceOrient::UpperDir(Vector2::new(0.0, 1.0))).map_err(|e| e.to_string())?;
             Ok::<Outcome, String>(Outcome { geo, section })
         })
         .unwrap_or_else(|e| Err(format!("PANIC {e}")))
     });
     let mut v = Verdict::new();
-    let name = if which == 0 { "OpenEdge" } else { "OpenIntersectGap" };
+    let name = format!("{} at the {} edge", if which == 0 { "OpenEdge" } else { "OpenIntersectGap" }, if open_leading { "leading" } else { "trailing" });
     match r {
         None => v.require(false, "airfoil.analysis_terminates", || format!("open section, {name}")),
         Some(Err(e)) => v.require(!e.starts_with("PANIC"), "airfoil.analysis_does_not_panic", || format!("open section {name}: {e}")),
         Some(Ok(out)) => {
-            let _ = var;
             let geo = &out.geo;
             let st = &geo.stations;
             if let (Some(l), Some(t)) = (&geo.leading_edge, &geo.trailing_edge) {
-                // the trailing (open) edge point lies at the trailing end of the camber, i.e. beyond the last station
+                // each edge point lies at its own end of the station sequence
                 let last = st[st.len() - 1].center();
                 let first = st[0].center();
-                v.require((t.point - last).norm() <= (t.point - first).norm(), "airfoil.open_trailing_edge_at_trailing_end", || format!("{name}: trailing edge point {:?} is nearer to the first station {:?} than to the last {:?}", t.point, first, last));
-                v.require((l.point - first).norm() <= (l.point - last).norm(), "airfoil.leading_edge_at_leading_end", || format!("{name}"));
+                v.require((t.point - last).norm() <= (t.point - first).norm(), "airfoil.trailing_edge_at_trailing_end", || format!("{name}: trailing edge point {:?} is nearer to the first station {:?} than to the last {:?}", t.point, first, last));
+                v.require((l.point - first).norm() <= (l.point - last).norm(), "airfoil.leading_edge_at_leading_end", || format!("{name}: leading edge point {:?} is nearer to the last station {:?} than to the first {:?}", l.point, last, first));
                 let cp = geo.camber.points();
                 v.require((cp[0] - l.point).norm() <= 1e-9 && (cp[cp.len() - 1] - t.point).norm() <= 1e-9, "airfoil.camber_runs_from_edge_to_edge", || format!("{name}"));
+                // the camber curve does not double back
+                let mut back = 0;
+                for w in cp.windows(3) {
+                    if (w[1] - w[0]).dot(&(w[2] - w[1])) < 0.0 {
+                        back += 1;
+                    }
+                }
+                v.require(back == 0, "airfoil.camber_does_not_double_back", || format!("{name}: {back} reversals"));
             }
             let mut worst: f64 = 0.0;
             for s in st {
@@ -583,9 +621,6 @@ fn open_sections(rng: &mut Rng) {
         }
     }
     emit_oracle_only("airfoil.open", &Tok::new(), &Tok::new(), &v);
-    // OpenEdge with front = true must pick the leading end
-    let fam2 = family(rng);
-    let _ = fam2;
 }
 
 pub fn run(rng: &mut Rng, n: usize, thorough: bool) {
